@@ -896,58 +896,15 @@ fn first_after(first: usize, n: usize, op: &FOp) -> usize {
     match op { FOp::Push(_) => (first + 1) % n, FOp::Ext(xs) => (first + xs.len()) % n, FOp::First(i) => *i % n, _ => first }
 }
 
-/// indices at and near usize::MAX / 2^63 for get, get_mut/IndexMut and set_first. The claimed domain
-/// is first + index <= usize::MAX (props/C06.json "assumptions"; beyond it see `probe_fixed_index_overflow`),
-/// so the largest indices used are usize::MAX - first - k.
+/// indices at and near usize::MAX / 2^63 for get (+Index), get_mut/IndexMut and set_first, from whatever
+/// `first` is: every index must select element `index mod N` of the oldest-first order, in builds with
+/// and without overflow checks (first + index itself may exceed usize::MAX)
 fn extreme_block_f(n: usize, first: usize, out: &mut Vec<FOp>) -> usize {
-    for k in 0..=n.min(4) { out.push(FOp::Get(MAX - first - k)); }
-    out.extend([FOp::Get(HALF), FOp::Get(HALF - 1), FOp::Gm(MAX - first, 8), FOp::Gm(MAX - first - 1, 9), FOp::Iter]);
-    out.extend([FOp::First(MAX), FOp::Raw, FOp::Iter]);
-    let f1 = MAX % n;
-    out.extend([FOp::Get(MAX - f1), FOp::First(MAX - 1), FOp::Raw, FOp::First(HALF), FOp::Raw, FOp::Iter]);
+    for k in 0..=n.min(4) { out.push(FOp::Get(MAX - k)); }
+    out.extend([FOp::Get(MAX - first), FOp::Get(HALF), FOp::Get(HALF - 1), FOp::Gm(MAX, 8), FOp::Gm(MAX - 1, 9), FOp::Gm(MAX - first, 10), FOp::Iter]);
+    out.extend([FOp::First(MAX), FOp::Raw, FOp::Iter, FOp::Get(MAX), FOp::Get(MAX - 1), FOp::Gm(MAX - 2, 11)]);
+    out.extend([FOp::First(MAX - 1), FOp::Raw, FOp::First(HALF), FOp::Raw, FOp::Get(MAX), FOp::Iter]);
     HALF % n
-}
-
-/// Beyond the claimed domain: `Fixed::get/get_mut/Index` compute `(first + index) % len` in usize. For
-/// first >= 1 and index > usize::MAX - first the sum overflows: builds with overflow checks panic, builds
-/// without wrap to `first + index - 2^64`, whose residue mod N differs from `(first + index) mod N` unless N
-/// divides 2^64. Probed natively (not sent through the model). A mismatch is reported as a known finding
-/// if /verif/known_findings.json lists id `C06-fixed-index-overflow` as known, else recorded in the notes.
-fn probe_fixed_index_overflow(st: &mut Stream) {
-    let listed = std::fs::read_to_string("/verif/known_findings.json").ok().map_or(false, |t| {
-        t.split('{').any(|obj| obj.contains("C06-fixed-index-overflow") && obj.contains("\"known\""))
-    });
-    let (mut n_ok, mut n_panic, mut n_wrong) = (0u64, 0u64, 0u64);
-    let mut example: Option<(String, String)> = None;
-    for n in 1..=9usize {
-        for first in 1..n {
-            let data: Vec<i32> = (0..n as i32).map(|i| 11 + i).collect();
-            let all: Vec<i32> = data.iter().cycle().skip(first).take(n).copied().collect();
-            for k in 0..first {
-                let i = MAX - k; // first + i overflows
-                let want = all[i % n];
-                let d = data.clone();
-                let got = guarded(move || { let rb = Fixed::from_raw_parts(first, d); *rb.get(i) });
-                match got {
-                    Some(v) if v == want => n_ok += 1,
-                    other => {
-                        if other.is_none() { n_panic += 1 } else { n_wrong += 1 }
-                        let case = format!("fixed vec raw {} {} {} | get:{}", first, n, csv(&data).replace(',', " "), i);
-                        let obs = format!("{} (oldest-first element i mod N = {})", other.map_or("panic".to_string(), |v| v.to_string()), want);
-                        if listed { st.known_hit("C06-fixed-index-overflow", &case, &obs); }
-                        if example.is_none() { example = Some((case, obs)); }
-                    }
-                }
-            }
-        }
-    }
-    st.count_n("probe_fixed_index_overflow_correct", n_ok);
-    st.count_n("probe_fixed_index_overflow_panic", n_panic);
-    st.count_n("probe_fixed_index_overflow_wrong_element", n_wrong);
-    if let Some((case, obs)) = example {
-        st.note(&format!("outside the claimed domain (first + index > usize::MAX): Fixed::get computes (first + index) % len in usize; {} probes panicked, {} returned another element than index mod N, {} correct; e.g. `{}` -> {}{}",
-            n_panic, n_wrong, n_ok, case, obs, if listed { "" } else { " (not listed in known_findings.json: recorded here only)" }));
-    }
 }
 
 fn case_f(st: &mut Stream, kind: &str, ctor: FCtor, data: &[i32], ops: &[FOp]) {
@@ -1102,7 +1059,6 @@ fn run_fixed(a: &Args) {
             }
         }
     }
-    probe_fixed_index_overflow(&mut st);
 
     // ---- 4. malformed constructor arguments incl. empty storage
     for kind in KINDS_F {
@@ -1127,19 +1083,18 @@ fn run_fixed(a: &Args) {
         let mut ops = vec![];
         let mut f = match ctor { FCtor::Raw(f) => f, FCtor::From => 0 };
         for _ in 0..n_ops {
-            // `lim`: largest index in the claimed domain (first + index <= usize::MAX); set_first has no limit
-            let idx = |rng: &mut Rng, lim: usize| -> usize { match rng.below(6) { 0 => 0, 1 => n - 1, 2 => n, 3 => rng.usize_below(3 * n + 1), 4 => extreme_index(rng, lim.wrapping_sub(MAX).wrapping_neg(), n, n).min(lim), _ => rng.usize_below(n) } };
+            let idx = |rng: &mut Rng, f: usize| -> usize { match rng.below(6) { 0 => 0, 1 => n - 1, 2 => n, 3 => rng.usize_below(3 * n + 1), 4 => extreme_index(rng, f, n, n), _ => rng.usize_below(n) } };
             let val = |rng: &mut Rng, v: &mut Vals| -> i32 { if rng.chance(1, 5) { rng.range(-50, 50) as i32 } else { v.next() } };
             let r = if pushy { rng.below(12) } else { rng.below(22) };
             let op = match r {
                 0..=5 => FOp::Push(val(&mut rng, &mut v)),
-                6 | 7 => FOp::Get(idx(&mut rng, MAX - f)),
+                6 | 7 => FOp::Get(idx(&mut rng, f)),
                 8 => FOp::Iter,
                 9 => FOp::Loop(rng.usize_below(3 * n + 2)),
                 10 => FOp::Slices,
                 11 => { let k = rng.usize_below(n.min(6) + 2); FOp::Ext((0..k).map(|_| val(&mut rng, &mut v)).collect()) }
-                12 | 13 => FOp::Gm(idx(&mut rng, MAX - f), val(&mut rng, &mut v)),
-                14 | 15 => FOp::First(idx(&mut rng, MAX)),
+                12 | 13 => FOp::Gm(idx(&mut rng, f), val(&mut rng, &mut v)),
+                14 | 15 => FOp::First(idx(&mut rng, f)),
                 16 => { let k = rng.usize_below(n + 2); FOp::Im((0..k).map(|_| val(&mut rng, &mut v)).collect()) }
                 17 => { let k = rng.usize_below(n + 2); FOp::Sm((0..k).map(|_| val(&mut rng, &mut v)).collect()) }
                 18 => FOp::Raw,
